@@ -28,6 +28,24 @@ def ensure_deps():
     return deps
 
 
+def refs_independent():
+    """The reference models must be independent code: no file under vmon/ref may import pyerrors."""
+    import ast
+    import glob
+    bad = []
+    for f in glob.glob(os.path.join(ROOT, 'vmon', 'ref', '*.py')):
+        tree = ast.parse(open(f).read())
+        for node in ast.walk(tree):
+            names = []
+            if isinstance(node, ast.Import):
+                names = [n.name for n in node.names]
+            elif isinstance(node, ast.ImportFrom):
+                names = [node.module or '']
+            if any(n == 'pyerrors' or n.startswith('pyerrors.') for n in names):
+                bad.append(os.path.basename(f))
+    return bad
+
+
 def load_known():
     p = os.path.join(ROOT, 'known_findings.json')
     if not os.path.exists(p):
@@ -140,6 +158,8 @@ def main(argv=None):
         herr.extend(r['harness_errors'])
     for h in herr[:5]:
         problems.append('harness error: ' + h)
+    for f in refs_independent():
+        problems.append('reference model %s imports pyerrors (references must be independent code)' % f)
     deciding = getattr(mod, 'DECIDING', [])
     for d in deciding:
         if counters.get(d, 0) == 0 and not only:
